@@ -73,6 +73,10 @@ Definition spec (k:tcase) (obs:tape) : option (N * tape) :=
   else match p_tobs obs with
   | None => Some (199, [])
   | Some (o, _) =>
+      (* the first hop goes through the caller's own dial function whenever one is configured
+         (NetDialTLSContext for a TLS first hop, else NetDialContext, else NetDial) *)
+      if negb (o_fn o =? e_fn (first_fn pl)) then Some (165, [o_fn o])
+      else
       (* every CONNECT carried exactly the configured credentials (or none) *)
       if negb (forallb (fun a => match want_auth k with Some w => beq a w | None => beq a [] end) (o_auths o)) then Some (162, [])
       (* whatever TLS session reached the backend through a proxy was opened for the URL's host (or the configured ServerName) *)
